@@ -35,4 +35,30 @@ mod verif_demo_c04_ods_blank_row_width {
         let r = get_range::<usize>(vec![5, 0, 7], &[0, 1, 2, 3], &[1, 1, 1]);
         assert_eq!(r.inner, vec![5, 0, 7]);
     }
+
+    // END TO END: a well-formed .ods (built in memory) whose sheet has B1 = 5, an empty row 2, B3 = 7.
+    // worksheet_range reports B1:B3 but B3 reads back as Empty and rows() yields 4 rows for a range of height 3.
+    #[test]
+    fn verif_demo_ods_file_blank_row_displaces_value() {
+        use std::io::{Cursor, Write};
+        let content = r#"<?xml version="1.0" encoding="UTF-8"?>
+<office:document-content xmlns:office="urn:oasis:names:tc:opendocument:xmlns:office:1.0" xmlns:table="urn:oasis:names:tc:opendocument:xmlns:table:1.0" xmlns:text="urn:oasis:names:tc:opendocument:xmlns:text:1.0"><office:body><office:spreadsheet>
+<table:table table:name="S"><table:table-row><table:table-cell/><table:table-cell office:value-type="float" office:value="5"/></table:table-row><table:table-row><table:table-cell table:number-columns-repeated="2"/></table:table-row><table:table-row><table:table-cell/><table:table-cell office:value-type="float" office:value="7"/></table:table-row></table:table>
+</office:spreadsheet></office:body></office:document-content>"#;
+        let mut w = zip::write::ZipWriter::new(Cursor::new(Vec::new()));
+        let o = zip::write::SimpleFileOptions::default().compression_method(zip::CompressionMethod::Stored);
+        w.start_file("mimetype", o).unwrap();
+        w.write_all(b"application/vnd.oasis.opendocument.spreadsheet").unwrap();
+        w.start_file("META-INF/manifest.xml", o).unwrap();
+        w.write_all(br#"<?xml version="1.0"?><manifest:manifest xmlns:manifest="urn:oasis:names:tc:opendocument:xmlns:manifest:1.0"><manifest:file-entry manifest:full-path="/" manifest:media-type="application/vnd.oasis.opendocument.spreadsheet"/><manifest:file-entry manifest:full-path="content.xml" manifest:media-type="text/xml"/></manifest:manifest>"#).unwrap();
+        w.start_file("content.xml", o).unwrap();
+        w.write_all(content.as_bytes()).unwrap();
+        let bytes = w.finish().unwrap().into_inner();
+        let mut ods: Ods<_> = Ods::new(Cursor::new(bytes)).unwrap();
+        let r = ods.worksheet_range("S").unwrap();
+        assert_eq!((r.start(), r.end()), (Some((0, 1)), Some((2, 1))));
+        assert_eq!(r.get_value((0, 1)), Some(&Data::Float(5.0)));
+        assert_eq!(r.get_value((2, 1)), Some(&Data::Empty)); // must be Float(7.0)
+        assert_eq!(r.rows().count(), 4); // must be 3
+    }
 }
